@@ -30,6 +30,34 @@ def _hook(interp: Any, name: str) -> Any:
         r["deepcopy"] = Builtin("copy.deepcopy", fxmodel.b_deepcopy)
     if name == "tabulate":
         r = {"tabulate": Builtin("tabulate", lambda it, a, k: None)}
+    if name in ("torch.utils._pytree", "torch.utils"):
+        # ASSUMED torch.utils._pytree: containers are tuple / list / dict; everything else (slices
+        # included) is a LEAF
+        def tree_map_only(it: Any, a: List[Any], k: Dict[str, Any]) -> Any:
+            ty, fn, tree = a[0], a[1], a[2]
+
+            def rec(x: Any) -> Any:
+                if isinstance(x, tuple):
+                    return tuple(rec(y) for y in x)
+                if isinstance(x, list):
+                    return [rec(y) for y in x]
+                if isinstance(x, dict):
+                    return {kk: rec(v) for kk, v in x.items()}
+                if isinstance(x, FxNode):
+                    return it.call(fn, [x], {})
+                return x
+
+            return rec(tree)
+
+        def tree_map(it: Any, a: List[Any], k: Dict[str, Any]) -> Any:
+            return tree_map_only(it, [None, a[0], a[1]], k)
+
+        ents = {"tree_map_only": Builtin("tree_map_only", tree_map_only), "tree_map": Builtin("tree_map", tree_map)}
+        if name == "torch.utils":
+            from pyvc.torchmodel import _mod
+
+            return {"_pytree": _mod("torch.utils._pytree", ents)}
+        return ents
     return r
 
 
